@@ -122,11 +122,15 @@ func (e *Engine) verifyUnit(u *FuncUnit) *UnitResult {
 				c.abort("ghost %s: %v", g.Name, err)
 				break
 			}
-			if v.S == "Int" || v.S == "Bool" {
+			if v.S != "?nil" {
 				// named constant so that a counterexample model shows the entry value
 				n := c.fresh("g_"+g.Name, v.S)
 				st.assume(eq(n, v.T))
 				v.T = n
+			}
+			if isSliceSort(v.S) {
+				// a ghost that denotes a Go slice value is well formed
+				st.assume("(>= " + sLen(v) + " 0)")
 			}
 			st.ghost[g.Name] = v
 		}
